@@ -14,7 +14,7 @@ from engine.hdef import H, exclude_known
 from engine.sym import check, must_not_raise, require
 
 
-def make(qa, qb, reassign, free=None):
+def make(qa, qb, reassign, free=None, a_no_staff=False):
     DEFAULTS = {"on_a": 0, "on_b": 0, "va1": 1, "va2": 1, "vb1": 1, "vb2": 1, "sa": 1, "sb": 1}
     names = ["on_a", "on_b", "va1", "va2", "vb1", "vb2", "sa", "sb"]
 
@@ -41,7 +41,9 @@ def make(qa, qb, reassign, free=None):
             P.add(S.Measure(number=1), 0, 8 * q)
             P.add(S.Clef(1, "G", 2, 0), 0)
         a1 = S.Note("C", 4, id="a1", voice=va1, staff=(sa if sa > 0 else None))
-        a2 = S.Note("E", 4, id="a2", voice=va2, staff=1)
+        if a_no_staff:
+            require(sa == 0)  # no note of the first part carries a staff (parts imported from MIDI): counts as staff 1
+        a2 = S.Note("E", 4, id="a2", voice=va2, staff=None if a_no_staff else 1)
         b1 = S.Note("G", 4, id="b1", voice=vb1, staff=(sb if sb > 0 else None))
         b2 = S.Rest(id="b2", voice=vb2, staff=1)
         w = S.Words("dolce", staff=1)
@@ -146,7 +148,8 @@ def _inst(tier):
     out = [{"qa": 2, "qb": 3, "reassign": "voice", "free": ["on_a", "va1", "vb2"]},
            {"qa": 2, "qb": 3, "reassign": "voice", "free": ["on_b", "va2", "vb1"]},
            {"qa": 4, "qb": 6, "reassign": "staff", "free": ["on_b", "sa", "sb"]},
-           {"qa": 3, "qb": 2, "reassign": "auto", "free": ["on_a", "sa", "va1", "va2"]}]
+           {"qa": 3, "qb": 2, "reassign": "auto", "free": ["on_a", "sa", "va1", "va2"]},
+           {"qa": 2, "qb": 3, "reassign": "staff", "free": ["on_a", "sa", "sb"], "a_no_staff": True}]
     if tier != "quick":
         out += [{"qa": 2, "qb": 2, "reassign": "voice"}, {"qa": 1, "qb": 1, "reassign": "staff"}, {"qa": 3, "qb": 5, "reassign": "voice"},
                 {"qa": 4, "qb": 6, "reassign": "auto"}]
